@@ -474,10 +474,12 @@ inline CLib from_model(const model::MLib& m, const Options& opt) {
             std::string props = props_str(r.props, mode);
             IPt o = rgrid(r.origin);
             for (auto& off : rep_offsets(r.rep)) {
-                // repetition vectors of references are generated on grid: rounding distributes
+                // GDSII writes every copy at origin + offset, rounded as one sum (lattice vectors are generated on
+                // the grid, where that makes no difference; explicit offsets need not be); OASIS stores the rounded
+                // origin and the rounded offsets side by side
                 IPt g = rgrid(off);
-                cc.refs.push_back(ref_line(r.target, r.xrefl, r.rot_deg, r.mag, (o.x + g.x) * 1024,
-                                           (o.y + g.y) * 1024, props));
+                IPt sum = mode == GDS ? rgrid(model::Pt{r.origin.x + off.x, r.origin.y + off.y}) : IPt{o.x + g.x, o.y + g.y};
+                cc.refs.push_back(ref_line(r.target, r.xrefl, r.rot_deg, r.mag, sum.x * 1024, sum.y * 1024, props));
             }
         }
         if (mode == OAS) cc.props.push_back(props_str(mc.props, OAS));
